@@ -646,7 +646,13 @@ def c15(pid, tier, seed):
                         T("t-mal-%s-int" % nm, d, "int", "malformed", maxedges=2)]
         return out
     io = vf.build_ioh("o1")
-    results, violations = run_all(pid, sets(), [], seed, io, validate=False)
+    d = vf.fresh_dir(os.path.join(vf.RUN, pid, "files"))
+    lf = os.path.join(d, "longfield.ndjson")
+    with open(lf, "w") as f:
+        for n in ((2000, 300000) if q else (2000, 300000, 3000000)):
+            for direc in (True, False):
+                f.write(json.dumps({"k": "text_longfield", "dir": direc, "len": n}) + "\n")
+    results, violations = run_all(pid, sets(), [("long-fields", lf, None)], seed, io, validate=False)
     ioa = vf.build_ioh("asan")
     s2 = sets("-asan")
     if q:
